@@ -96,6 +96,8 @@ func cmdCheck(verifDir, repoDir string, args []string) int {
 	prop := args[0]
 	tier := os.Getenv("VERIF_TIER")
 	only := ""
+	updateBaseline := false
+	var missing []*Obl
 	verbose := false
 	keep := false
 	for i := 1; i < len(args); i++ {
@@ -110,6 +112,8 @@ func cmdCheck(verifDir, repoDir string, args []string) int {
 			verbose = true
 		case "--keep":
 			keep = true
+		case "--update-baseline":
+			updateBaseline = true
 		}
 	}
 	if tier == "" {
@@ -146,6 +150,36 @@ func cmdCheck(verifDir, repoDir string, args []string) int {
 			if hasProp(o, prop) {
 				all = append(all, o)
 			}
+		}
+	}
+	// vacuity guard: every labelled clause recorded in the committed baseline must
+	// still generate an obligation (a contract whose target vanished fails, it is not skipped)
+	if only == "" {
+		blFile := filepath.Join(verifDir, "baseline", prop+".txt")
+		have := map[string]bool{}
+		for _, o := range all {
+			if o.Kind == "ensures" || o.Kind == "inv-init" || o.Kind == "inv-step" || o.Kind == "decreases" || o.Kind == "vacuity" {
+				have[baseName(o.Name)] = true
+			}
+		}
+		if updateBaseline {
+			var names []string
+			for n := range have {
+				names = append(names, n)
+			}
+			sort.Strings(names)
+			os.MkdirAll(filepath.Dir(blFile), 0o755)
+			os.WriteFile(blFile, []byte(strings.Join(names, "\n")+"\n"), 0o644)
+		} else if data, err := os.ReadFile(blFile); err == nil {
+			for _, n := range strings.Split(strings.TrimSpace(string(data)), "\n") {
+				if n != "" && !have[n] {
+					o := &Obl{Name: n, Func: strings.SplitN(n, ":", 2)[0], Kind: "missing", Label: n, Props: []string{prop}, Verdict: "failed-unknown",
+						Detail: "contract target missing: the baseline lists this obligation but the current tree generates none for it"}
+					missing = append(missing, o)
+				}
+			}
+		} else {
+			engineErrs = append(engineErrs, "no baseline file "+blFile+" (run with --update-baseline on the unchanged tree)")
 		}
 	}
 	tGen := time.Since(t0) - tLoad
@@ -215,7 +249,8 @@ func cmdCheck(verifDir, repoDir string, args []string) int {
 		}
 		rep.failed = append(rep.failed, o)
 	}
-	rep.all = all
+	rep.failed = append(rep.failed, missing...)
+	rep.all = append(all, missing...)
 	rep.findings = findings
 	rep.engineErrs = engineErrs
 	rep.tLoad, rep.tGen = tLoad.Seconds(), tGen.Seconds()
